@@ -4,7 +4,7 @@
    (Proofs.v, [select_tie_invariant]: all valid rankings agree up to the mean class). *)
 From Coq Require Import List Arith Bool ZArith QArith.
 Import ListNotations.
-From AgileV Require Import Base.Prelude C05.Model.
+From AgileV Require Import Base.Prelude C05.Model C05.HeapModel.
 Local Open Scope nat_scope.
 
 Fixpoint list_eqb {T} (eqb : T -> T -> bool) (a b : list T) : bool :=
@@ -31,8 +31,41 @@ Definition o_fitness (o : oagent) : list Q := snd o.
 (* a request made to np.random.randint: (low, high, size) *)
 Definition rreq := (Z * Z * nat)%type.
 
+
+(* ---- ownership level: run the heap model on a canonical heap (every agent owns its fitness list and
+   one cell) and report (some copy shares an object with the old population or with another copy,
+   some old object was written) ---- *)
+Definition val_eqb (a b : option val) : bool :=
+  match a, b with
+  | None, None => true
+  | Some (VList x), Some (VList y) => list_eqb Qeq_bool x y
+  | Some (VCell x), Some (VCell y) => x =? y
+  | _, _ => false
+  end.
+Fixpoint build (h : heap) (pop : list (agent nat)) : list hagent * heap :=
+  match pop with
+  | [] => ([], h)
+  | a :: t =>
+      let (lf, h1) := alloc h (Some (VList (a_fitness a))) in
+      let (lc, h2) := alloc h1 (Some (VCell (a_body a))) in
+      let (r, h3) := build h2 t in
+      ({| h_index := a_index a; h_fit := lf; h_cells := [lc] |} :: r, h3)
+  end.
+Fixpoint nodupb (l : list nat) : bool :=
+  match l with [] => true | x :: t => negb (existsb (Nat.eqb x) t) && nodupb t end.
+Definition heap_verdict (c : cfg) (pop : list (agent nat)) (draws : list (list nat)) : option (bool * bool) :=
+  let (hp, h) := build {| next := 0; store := fun _ => None |} pop in
+  match select_h (ranks (means c pop)) c hp draws h with
+  | None => None
+  | Some (e, np, h') =>
+      let ow := concat (map owned (e :: np)) in
+      Some (negb (nodupb ow) || existsb (fun l => l <? next h) ow,
+            negb (forallb (fun l => val_eqb (store h' l) (store h l)) (seq 0 (next h))))
+  end.
+
+(* [shared], [changed]: observed on the implementation (object identities / snapshots) *)
 Definition check_select (c : cfg) (pop : list (agent nat)) (draws : list (list nat))
-           (reqs : list rreq) (ob : option (oagent * list oagent)) : bool :=
+           (reqs : list rreq) (shared changed : bool) (ob : option (oagent * list oagent)) : bool :=
   match pop, ob with
   | [], None => true
   | a0 :: rest, Some (oe, oms) =>
@@ -58,14 +91,18 @@ Definition check_select (c : cfg) (pop : list (agent nat)) (draws : list (list n
       forallb2 (fun (r : rreq) (ds : list nat) =>
                   Z.eqb (fst (fst r)) 0 && Z.eqb (snd (fst r)) (Z.of_nat n) && (snd r =? tsize c) &&
                   (length ds =? tsize c)) reqs draws &&
-      (length draws =? nsel c)
+      (length draws =? nsel c) &&
+      match heap_verdict c pop draws with
+      | Some (ms, mc) => Bool.eqb ms shared && Bool.eqb mc changed
+      | None => false
+      end
   | _, _ => false
   end.
 
 (* a chain of generations: every generation is checked from the population the implementation
    actually had before the call *)
-Definition gen_case := (list (agent nat) * list (list nat) * list rreq * option (oagent * list oagent))%type.
+Definition gen_case := (list (agent nat) * list (list nat) * list rreq * (bool * bool) * option (oagent * list oagent))%type.
 Definition check_chain (c : cfg) (gs : list gen_case) : bool :=
-  forallb (fun g : gen_case => let '(pop, draws, reqs, ob) := g in check_select c pop draws reqs ob) gs.
+  forallb (fun g : gen_case => let '(pop, draws, reqs, (shared, changed), ob) := g in check_select c pop draws reqs shared changed ob) gs.
 
 Definition mk (i : Z) (f : list Q) (tag : nat) : agent nat := {| a_index := i; a_fitness := f; a_body := tag |}.
